@@ -226,3 +226,63 @@ PROPS.update({
                         "the theorem additionally covers any loss of unsynced writes"],
     },
 })
+KEEPER_TB = ["the Go runtime's channels, RWMutex and goroutine scheduling (the model makes a call under stateLock atomic and "
+             "splits the plotter's loop at the points where it holds no lock; hook H3 parks the real plotter at those points)",
+             "gopkg.in/karalabe/cookiejar.v2 prque: a max-heap; the order among requests of equal priority (same space) is "
+             "unspecified — the model's pop label carries which one the heap yielded (observed)",
+             "the plot backend behind massdb.MassDB is a parameter: Plot() blocks until the backend ends it, StopPlot() makes an "
+             "executing plot return, Progress() says whether it completed (scripted backend in the keeper harness; the real "
+             "massdb.v1 is exercised by the C07/C10 harness and by the C13 real-DB scenario)"]
+KEEPER_ASSUME = ["hand-written model Model/Keeper.lean (v1 keeper capacity/*.go); agreement checked on every run by the gated "
+                 "correspondence stream: every API call and every plotter micro-step is one line, the whole bookkeeping is compared after each",
+                 "the v2 keeper (engine.v2/spacekeeper/skchia) is covered through the regenerated fact that its request methods, "
+                 "queue and plotter loop are the same text as v1's (Facts.keeperV2SameAsV1); it is not driven by the harness",
+                 "two API calls never overlap in the model (they serialise on stateLock; PlotWS takes only the read lock and writes "
+                 "the popped item's wouldMining flag under it — a Go-level data race the model does not exhibit)"]
+
+def keeper(pid, text, note, extra=None, timeout=1500):
+    q = {"n": 60, "len": 30, "focus": pid}
+    t = {"n": 700, "len": 60, "focus": pid}
+    return {
+        "props": ["MassVerif.Props." + pid], "drivers_mod": ["MassVerif.Driver.Keeper"],
+        "harnesses": [{"name": "keeper", "pkg": "harness/keeper", "driver": "MassVerif/Driver/Keeper.lean",
+                       "quick": q, "thorough": t, "search": {"n": 400, "len": 60, "focus": pid}, "timeout": timeout,
+                       "crash_key": "process-died"}],
+        "level_text": text, "level_note": note,
+        "trusted_base": KEEPER_TB, "assumptions": KEEPER_ASSUME + (extra or []),
+    }
+
+PROPS.update({
+    "C09": keeper("C09",
+        "Unbounded proof (Lean 4) over a labelled transition system of the keeper: API actions atomic, the plotter's loop split into "
+        "its micro-steps (receive, pop, step 1, plot end, step 3, exit), keeper start/quit; schedules = arbitrary label lists, so every "
+        "interleaving of plotter steps with requests is covered. Proved for every reachable configuration: each indexed space is in exactly "
+        "one state map and it is the one its state field names; at most one space is plotting and it is the one the plotter holds; every "
+        "label moves states only along the documented table (Trans); stop returns a mining space to ready and a plotting space to "
+        "registered; after a stop, until asked again, the space never becomes mining or (re-)enters plotting, and all its waiting requests "
+        "are void; flag filters, the list and the per-state maps agree; the miner is offered exactly the in-use mining spaces. "
+        "Correspondence: the real keeper with a scripted plot backend, the plotter parked at the gates of hook H3, one label per line.",
+        "Trusted: Lean kernel; the model's atomicity of calls under stateLock. Four genuine defects were found by this check and repaired "
+        "(fix: commits 4d081e8, 9963a86, 01d69d6, 23f4d62); the model describes the repaired code."),
+    "C13": keeper("C13",
+        "Unbounded proof (Lean 4) over the keeper transition system: no reachable step panics (PopItem on an empty heap, nil popped item "
+        "dereferenced by plot/mine/stop or by step 1 are modelled as panics and shown unreachable); every request is enabled in every "
+        "reachable configuration (no send blocks: regenerated fact that every send on the plotter channel is a select case with a default, "
+        "in both keepers) and the channel never exceeds its capacity, a request finding it full is refused; the plotter's own next step is "
+        "always enabled (it waits only for a plot to end, a request, or Start); once quit is closed every plotter/backend step strictly "
+        "decreases a measure <= 5, no request increases it, and some step is enabled until the plotter has returned: Stop() terminates. "
+        "Correspondence as C09 with watchdogs on every call, a 1032-request flood while a plot executes, and a scenario on the real "
+        "massdb.v1 (double StopPlot during one plot, Close during plotting, Plot/StopPlot/Delete on a plotted space).",
+        "Partial in one respect: Go-level data races (PlotWS writing wouldMining under the read lock, queue.Empty()/Push() racing "
+        "queue.Delete()'s swap of the heap) are runtime behaviour the model cannot exhibit; 'terminates' assumes the backend ends a plot "
+        "it was asked to stop (true of massdb.v1: checked per window)."),
+    "C11": keeper("C11",
+        "Unbounded proof (Lean 4) over the keeper transition system, action half of the property: remove/delete on a plotting or mining "
+        "space return ErrWorkSpaceIsNotStill and leave state, indexes, list, files and the deletion log unchanged; a successful delete "
+        "logs exactly one Delete() — of that space —, erases that space's files and touches no other space, and is possible only from "
+        "registered/ready; remove erases nothing; no label other than a delete request changes the deletion log or any space's files "
+        "(every other request, every plotter step, plot end, keeper start/stop). Start-up scan half: Props/C11Scan (see there). "
+        "Correspondence: keeper harness (deleted= and files= columns of the scripted backend after every label).",
+        "Trusted: Lean kernel; the scripted backend stands for massdb.v1's Delete (os.Remove of the two files of that space, refused "
+        "while plotting: massdb.v1.go)."),
+})
